@@ -122,8 +122,8 @@ def check(ctx, env):
     seen, ext, ind = P.inventory(ctx, prog, "R14.1", entries)
     st = P.check_sites(ctx, prog, "R14.1", "C14", seen)
     st["reachable_functions"] = len(seen)
-    ctx.floor("R14.1", "reachable functions", len(seen), 150)
-    ctx.floor("R14.1", "panic sites inventoried", st["sites"], 100)
+    ctx.floor("R14.1", "reachable functions", len(seen), 130)
+    ctx.floor("R14.1", "panic sites inventoried", st["sites"], 70)
     ctx.extra["panic_sites"] = st
     budget = P.load_budget()
     configs = [("full", prog, seen)]
